@@ -20,6 +20,8 @@ func init() {
 			m.RunNilField(s, "R-NILFIELD", fns)
 			m.RunPanicCall(s, "R-PANICCALL", fns)
 			m.RunNilObj(s, "R-NILOBJ", fns)
+			m.RunTypedNil(s, "R-NILOBJ", fns)
+			m.RunNilRet(s, "R-NILRET", fns)
 		},
 	})
 }
